@@ -299,7 +299,7 @@ pub fn write_chunk_impl<'d, 's>(
 
 fn write_connless_packet<'a, B: Buffer<'a>>(payload: &[u8], buffer: B) -> Result<&'a [u8], Error> {
     fn inner<'d, 's>(payload: &[u8], mut buffer: BufferRef<'d, 's>) -> Result<&'d [u8], Error> {
-        if payload.len() > MAX_PAYLOAD {
+        if payload.len() > MAX_PACKETSIZE - HEADER_SIZE - PADDING_SIZE_CONNLESS {
             return Err(Error::TooLongData);
         }
         buffer.write(&[b'\xff'; HEADER_SIZE + PADDING_SIZE_CONNLESS])?;
